@@ -34,6 +34,8 @@ Record kmem := {
   slot_mutex : nat -> option nat;   (* manager->mutex_to_unlock of thread t's manager *)
   slot_sched : nat -> bool;         (* manager->to_schedule = self *)
   slot_wait : nat -> option (nat * Z); (* manager->set_wait_location / value *)
+  slot_mpmc : nat -> option nat;    (* manager->mpmc_to_push.fifo (abstract queue id) *)
+  mq : nat -> list nat;             (* MPMC waiter queues, atomic by C13: fiber ids, oldest first *)
   cell : nat -> Z               (* client-owned plain cells (harness data) *)
 }.
 
@@ -52,19 +54,21 @@ Definition l_cell (c : nat) : Z := 500 + Zn c.
 Definition ev (t : nat) (loc kind v : Z) : list Z := [Zn t; loc; kind; v].
 
 (* record updates *)
-Definition set_fstate m k v := {| fstate := upd (fstate m) k v; ndata := ndata m; nnext := nnext m; word := word m; qhead := qhead m; qtail := qtail m; fnode := fnode m; blocked := blocked m; pend := pend m; slot_mutex := slot_mutex m; slot_sched := slot_sched m; slot_wait := slot_wait m; cell := cell m |}.
-Definition set_ndata m k v := {| fstate := fstate m; ndata := upd (ndata m) k v; nnext := nnext m; word := word m; qhead := qhead m; qtail := qtail m; fnode := fnode m; blocked := blocked m; pend := pend m; slot_mutex := slot_mutex m; slot_sched := slot_sched m; slot_wait := slot_wait m; cell := cell m |}.
-Definition set_nnext m k v := {| fstate := fstate m; ndata := ndata m; nnext := upd (nnext m) k v; word := word m; qhead := qhead m; qtail := qtail m; fnode := fnode m; blocked := blocked m; pend := pend m; slot_mutex := slot_mutex m; slot_sched := slot_sched m; slot_wait := slot_wait m; cell := cell m |}.
-Definition set_word m k v := {| fstate := fstate m; ndata := ndata m; nnext := nnext m; word := upd (word m) k v; qhead := qhead m; qtail := qtail m; fnode := fnode m; blocked := blocked m; pend := pend m; slot_mutex := slot_mutex m; slot_sched := slot_sched m; slot_wait := slot_wait m; cell := cell m |}.
-Definition set_qhead m k v := {| fstate := fstate m; ndata := ndata m; nnext := nnext m; word := word m; qhead := upd (qhead m) k v; qtail := qtail m; fnode := fnode m; blocked := blocked m; pend := pend m; slot_mutex := slot_mutex m; slot_sched := slot_sched m; slot_wait := slot_wait m; cell := cell m |}.
-Definition set_qtail m k v := {| fstate := fstate m; ndata := ndata m; nnext := nnext m; word := word m; qhead := qhead m; qtail := upd (qtail m) k v; fnode := fnode m; blocked := blocked m; pend := pend m; slot_mutex := slot_mutex m; slot_sched := slot_sched m; slot_wait := slot_wait m; cell := cell m |}.
-Definition set_fnode m k v := {| fstate := fstate m; ndata := ndata m; nnext := nnext m; word := word m; qhead := qhead m; qtail := qtail m; fnode := upd (fnode m) k v; blocked := blocked m; pend := pend m; slot_mutex := slot_mutex m; slot_sched := slot_sched m; slot_wait := slot_wait m; cell := cell m |}.
-Definition set_blocked m k v := {| fstate := fstate m; ndata := ndata m; nnext := nnext m; word := word m; qhead := qhead m; qtail := qtail m; fnode := fnode m; blocked := upd (blocked m) k v; pend := pend m; slot_mutex := slot_mutex m; slot_sched := slot_sched m; slot_wait := slot_wait m; cell := cell m |}.
-Definition set_pend m k v := {| fstate := fstate m; ndata := ndata m; nnext := nnext m; word := word m; qhead := qhead m; qtail := qtail m; fnode := fnode m; blocked := blocked m; pend := upd (pend m) k v; slot_mutex := slot_mutex m; slot_sched := slot_sched m; slot_wait := slot_wait m; cell := cell m |}.
-Definition set_slot_mutex m k v := {| fstate := fstate m; ndata := ndata m; nnext := nnext m; word := word m; qhead := qhead m; qtail := qtail m; fnode := fnode m; blocked := blocked m; pend := pend m; slot_mutex := upd (slot_mutex m) k v; slot_sched := slot_sched m; slot_wait := slot_wait m; cell := cell m |}.
-Definition set_slot_sched m k v := {| fstate := fstate m; ndata := ndata m; nnext := nnext m; word := word m; qhead := qhead m; qtail := qtail m; fnode := fnode m; blocked := blocked m; pend := pend m; slot_mutex := slot_mutex m; slot_sched := upd (slot_sched m) k v; slot_wait := slot_wait m; cell := cell m |}.
-Definition set_slot_wait m k v := {| fstate := fstate m; ndata := ndata m; nnext := nnext m; word := word m; qhead := qhead m; qtail := qtail m; fnode := fnode m; blocked := blocked m; pend := pend m; slot_mutex := slot_mutex m; slot_sched := slot_sched m; slot_wait := upd (slot_wait m) k v; cell := cell m |}.
-Definition set_cell m k v := {| fstate := fstate m; ndata := ndata m; nnext := nnext m; word := word m; qhead := qhead m; qtail := qtail m; fnode := fnode m; blocked := blocked m; pend := pend m; slot_mutex := slot_mutex m; slot_sched := slot_sched m; slot_wait := slot_wait m; cell := upd (cell m) k v |}.
+Definition set_fstate m k v := {| fstate := upd (fstate m) k v; ndata := ndata m; nnext := nnext m; word := word m; qhead := qhead m; qtail := qtail m; fnode := fnode m; blocked := blocked m; pend := pend m; slot_mutex := slot_mutex m; slot_sched := slot_sched m; slot_wait := slot_wait m; slot_mpmc := slot_mpmc m; mq := mq m; cell := cell m |}.
+Definition set_ndata m k v := {| fstate := fstate m; ndata := upd (ndata m) k v; nnext := nnext m; word := word m; qhead := qhead m; qtail := qtail m; fnode := fnode m; blocked := blocked m; pend := pend m; slot_mutex := slot_mutex m; slot_sched := slot_sched m; slot_wait := slot_wait m; slot_mpmc := slot_mpmc m; mq := mq m; cell := cell m |}.
+Definition set_nnext m k v := {| fstate := fstate m; ndata := ndata m; nnext := upd (nnext m) k v; word := word m; qhead := qhead m; qtail := qtail m; fnode := fnode m; blocked := blocked m; pend := pend m; slot_mutex := slot_mutex m; slot_sched := slot_sched m; slot_wait := slot_wait m; slot_mpmc := slot_mpmc m; mq := mq m; cell := cell m |}.
+Definition set_word m k v := {| fstate := fstate m; ndata := ndata m; nnext := nnext m; word := upd (word m) k v; qhead := qhead m; qtail := qtail m; fnode := fnode m; blocked := blocked m; pend := pend m; slot_mutex := slot_mutex m; slot_sched := slot_sched m; slot_wait := slot_wait m; slot_mpmc := slot_mpmc m; mq := mq m; cell := cell m |}.
+Definition set_qhead m k v := {| fstate := fstate m; ndata := ndata m; nnext := nnext m; word := word m; qhead := upd (qhead m) k v; qtail := qtail m; fnode := fnode m; blocked := blocked m; pend := pend m; slot_mutex := slot_mutex m; slot_sched := slot_sched m; slot_wait := slot_wait m; slot_mpmc := slot_mpmc m; mq := mq m; cell := cell m |}.
+Definition set_qtail m k v := {| fstate := fstate m; ndata := ndata m; nnext := nnext m; word := word m; qhead := qhead m; qtail := upd (qtail m) k v; fnode := fnode m; blocked := blocked m; pend := pend m; slot_mutex := slot_mutex m; slot_sched := slot_sched m; slot_wait := slot_wait m; slot_mpmc := slot_mpmc m; mq := mq m; cell := cell m |}.
+Definition set_fnode m k v := {| fstate := fstate m; ndata := ndata m; nnext := nnext m; word := word m; qhead := qhead m; qtail := qtail m; fnode := upd (fnode m) k v; blocked := blocked m; pend := pend m; slot_mutex := slot_mutex m; slot_sched := slot_sched m; slot_wait := slot_wait m; slot_mpmc := slot_mpmc m; mq := mq m; cell := cell m |}.
+Definition set_blocked m k v := {| fstate := fstate m; ndata := ndata m; nnext := nnext m; word := word m; qhead := qhead m; qtail := qtail m; fnode := fnode m; blocked := upd (blocked m) k v; pend := pend m; slot_mutex := slot_mutex m; slot_sched := slot_sched m; slot_wait := slot_wait m; slot_mpmc := slot_mpmc m; mq := mq m; cell := cell m |}.
+Definition set_pend m k v := {| fstate := fstate m; ndata := ndata m; nnext := nnext m; word := word m; qhead := qhead m; qtail := qtail m; fnode := fnode m; blocked := blocked m; pend := upd (pend m) k v; slot_mutex := slot_mutex m; slot_sched := slot_sched m; slot_wait := slot_wait m; slot_mpmc := slot_mpmc m; mq := mq m; cell := cell m |}.
+Definition set_slot_mutex m k v := {| fstate := fstate m; ndata := ndata m; nnext := nnext m; word := word m; qhead := qhead m; qtail := qtail m; fnode := fnode m; blocked := blocked m; pend := pend m; slot_mutex := upd (slot_mutex m) k v; slot_sched := slot_sched m; slot_wait := slot_wait m; slot_mpmc := slot_mpmc m; mq := mq m; cell := cell m |}.
+Definition set_slot_sched m k v := {| fstate := fstate m; ndata := ndata m; nnext := nnext m; word := word m; qhead := qhead m; qtail := qtail m; fnode := fnode m; blocked := blocked m; pend := pend m; slot_mutex := slot_mutex m; slot_sched := upd (slot_sched m) k v; slot_wait := slot_wait m; slot_mpmc := slot_mpmc m; mq := mq m; cell := cell m |}.
+Definition set_slot_wait m k v := {| fstate := fstate m; ndata := ndata m; nnext := nnext m; word := word m; qhead := qhead m; qtail := qtail m; fnode := fnode m; blocked := blocked m; pend := pend m; slot_mutex := slot_mutex m; slot_sched := slot_sched m; slot_wait := upd (slot_wait m) k v; slot_mpmc := slot_mpmc m; mq := mq m; cell := cell m |}.
+Definition set_slot_mpmc m k v := {| fstate := fstate m; ndata := ndata m; nnext := nnext m; word := word m; qhead := qhead m; qtail := qtail m; fnode := fnode m; blocked := blocked m; pend := pend m; slot_mutex := slot_mutex m; slot_sched := slot_sched m; slot_wait := slot_wait m; slot_mpmc := upd (slot_mpmc m) k v; mq := mq m; cell := cell m |}.
+Definition set_mq m k v := {| fstate := fstate m; ndata := ndata m; nnext := nnext m; word := word m; qhead := qhead m; qtail := qtail m; fnode := fnode m; blocked := blocked m; pend := pend m; slot_mutex := slot_mutex m; slot_sched := slot_sched m; slot_wait := slot_wait m; slot_mpmc := slot_mpmc m; mq := upd (mq m) k v; cell := cell m |}.
+Definition set_cell m k v := {| fstate := fstate m; ndata := ndata m; nnext := nnext m; word := word m; qhead := qhead m; qtail := qtail m; fnode := fnode m; blocked := blocked m; pend := pend m; slot_mutex := slot_mutex m; slot_sched := slot_sched m; slot_wait := slot_wait m; slot_mpmc := slot_mpmc m; mq := mq m; cell := upd (cell m) k v |}.
 
 (* rt_wake: a sleeping thread becomes runnable; otherwise the wake-up is remembered *)
 Definition wake (m : kmem) (f : nat) : kmem :=
@@ -88,6 +92,16 @@ Section Kernel.
   | WXchgW (q : nat) (v : Z) (mo : Z)
   | WLoadW (q : nat) (mo : Z)
   | WCasW (q : nat) (e n : Z) (mo : Z)  (* returns 1 / 0; on failure the observed value is in the trace only *)
+  | WStoreW (q : nat) (v : Z) (mo : Z)  (* atomic store on word q *)
+  | CXchgC (c : nat) (v : Z) (mo : Z)   (* atomic exchange on a client cell, returns OLD value *)
+  | CCasC (c : nat) (e n : Z) (mo : Z)  (* strong CAS on a client cell, returns 1 / 0 *)
+  | CStoreC (c : nat) (v : Z) (mo : Z)  (* atomic store on a client cell *)
+  | CLoadC (c : nat) (mo : Z)           (* atomic load of a client cell *)
+  | CFAddC (c : nat) (d : Z) (mo : Z)   (* atomic fetch_add on a client cell, returns OLD value *)
+  | FStWrite (f : nat) (v : Z)          (* plain write of fiber f's state *)
+  | FStRead (f : nat)                   (* plain read of fiber f's state, returns it *)
+  | QWait (q : nat)                     (* wait_in_mpmc_queue: this_fiber->state = WAITING; slot; yield *)
+  | QReady (f : nat)                    (* wake_from_mpmc_queue after a successful pop: f->state = READY; schedule *)
   (* fiber_manager_yield *)
   | YRead                               (* read own state *)
   | YNext (st : Z)                      (* the fiber_scheduler_next point *)
@@ -141,6 +155,10 @@ Section Kernel.
     let '(m1, e1) := if slot_sched m t
                      then (wake (set_slot_sched m t false) t, ev t 901 919 (Zn t))
                      else (m, []) in
+    let m1 := match slot_mpmc m1 t with
+              | Some q => set_mq (set_slot_mpmc m1 t None) q (mq m1 q ++ [t])
+              | None => m1
+              end in
     match slot_mutex m1 t with
     | Some q => (set_slot_mutex m1 t None, e1, UAdd q :: MSlots :: rest)
     | None =>
@@ -216,6 +234,34 @@ Section Kernel.
           if o =? e
           then let '(m1, e1, s1) := ret (set_word m q n) t 1 r in (m1, ev t (l_word q) (70 + mo) n ++ e1, s1)
           else let '(m1, e1, s1) := ret m t 0 r in (m1, ev t (l_word q) (80 + mo) o ++ e1, s1)
+      | WStoreW q v mo =>
+          let '(m1, e1, s1) := ret (set_word m q v) t 0 r in (m1, ev t (l_word q) (30 + mo) v ++ e1, s1)
+      | CXchgC c v mo =>
+          let o := cell m c in
+          let '(m1, e1, s1) := ret (set_cell m c v) t o r in (m1, ev t (l_cell c) (40 + mo) o ++ e1, s1)
+      | CCasC c e n mo =>
+          let o := cell m c in
+          if o =? e
+          then let '(m1, e1, s1) := ret (set_cell m c n) t 1 r in (m1, ev t (l_cell c) (70 + mo) n ++ e1, s1)
+          else let '(m1, e1, s1) := ret m t 0 r in (m1, ev t (l_cell c) (80 + mo) o ++ e1, s1)
+      | CStoreC c v mo =>
+          let '(m1, e1, s1) := ret (set_cell m c v) t 0 r in (m1, ev t (l_cell c) (30 + mo) v ++ e1, s1)
+      | CLoadC c mo =>
+          let o := cell m c in
+          let '(m1, e1, s1) := ret m t o r in (m1, ev t (l_cell c) (20 + mo) o ++ e1, s1)
+      | CFAddC c d mo =>
+          let o := cell m c in
+          let '(m1, e1, s1) := ret (set_cell m c (o + d)) t o r in (m1, ev t (l_cell c) (50 + mo) o ++ e1, s1)
+      | FStWrite f v =>
+          let '(m1, e1, s1) := ret (set_fstate m f v) t 0 r in (m1, ev t (l_state f) 19 v ++ e1, s1)
+      | FStRead f =>
+          let '(m1, e1, s1) := ret m t (fstate m f) r in (m1, ev t (l_state f) 9 (fstate m f) ++ e1, s1)
+      | QWait q => (set_slot_mpmc (set_fstate m t ST_WAITING) t (Some q),
+                    ev t (l_state t) 19 ST_WAITING, YRead :: r)
+      | QReady f =>
+          let m0 := wake (set_fstate m f ST_READY) f in
+          let '(m1, e1, s1) := ret m0 t 1 r in
+          (m1, ev t (l_state f) 19 ST_READY ++ ev t 901 919 (Zn f) ++ e1, s1)
       (* ---- yield ---- *)
       | YRead => (m, ev t (l_state t) 9 (fstate m t), YNext (fstate m t) :: r)
       | YNext st =>
@@ -313,6 +359,8 @@ Section Kernel.
 End Kernel.
 
 Arguments FC {C}. Arguments Start {C}. Arguments CWrite {C}. Arguments CRead {C}.
+Arguments WStoreW {C}. Arguments CXchgC {C}. Arguments CCasC {C}. Arguments CStoreC {C}. Arguments CLoadC {C}.
+Arguments CFAddC {C}. Arguments FStWrite {C}. Arguments FStRead {C}. Arguments QWait {C}. Arguments QReady {C}.
 Arguments WFAdd {C}. Arguments WFSub {C}. Arguments WXchgW {C}. Arguments WLoadW {C}. Arguments WCasW {C}.
 Arguments YRead {C}. Arguments YNext {C}. Arguments SwRead {C}. Arguments SwReady {C}. Arguments SwDone {C}.
 Arguments MRead {C}. Arguments MFlip {C}. Arguments MSlots {C}. Arguments MSetWait {C}. Arguments Asleep {C}.
@@ -328,4 +376,12 @@ Definition kinit (nobj : nat) (words : nat -> Z) : kmem :=
   {| fstate := fun _ => ST_READY; ndata := fun _ => 0; nnext := fun _ => O; word := words;
      qhead := fun q => S q; qtail := fun q => S q; fnode := fun t => (nobj + 1 + t)%nat;
      blocked := fun _ => false; pend := fun _ => O; slot_mutex := fun _ => None;
-     slot_sched := fun _ => false; slot_wait := fun _ => None; cell := fun _ => 0 |}.
+     slot_sched := fun _ => false; slot_wait := fun _ => None; slot_mpmc := fun _ => None;
+     mq := fun _ => []; cell := fun _ => 0 |}.
+
+(* silent MPMC trypop (atomic by C13): the client calls it inside [cret] *)
+Definition mq_pop (m : kmem) (q : nat) : option (nat * kmem) :=
+  match mq m q with
+  | [] => None
+  | f :: r => Some (f, set_mq m q r)
+  end.
